@@ -2,6 +2,7 @@ package main
 
 import (
 	"fmt"
+	"os"
 	"go/constant"
 	"go/token"
 	"go/types"
@@ -77,6 +78,7 @@ type Exec struct {
 	probes       map[string]map[string]Val
 	countersRegistered bool
 	ancestors map[string][]string
+	curState *State
 }
 
 func newExec(p *Program, sp *Specs) *Exec {
@@ -89,7 +91,41 @@ func newExec(p *Program, sp *Specs) *Exec {
 }
 
 func (ex *Exec) unsupported(format string, a ...interface{}) {
-	ex.notes["UNSUPPORTED "+ex.curKey+": "+fmt.Sprintf(format, a...)] = true
+	msg := fmt.Sprintf(format, a...)
+	ex.notes["UNSUPPORTED "+ex.curKey+": "+msg] = true
+	// a function under contract that leaves the verified subset loses its proof: this is reported
+	// as a failed obligation (it never happens on the unchanged tree)
+	if ex.topFrame != nil && ex.topFrame.spec != nil && ex.curState != nil {
+		labels := ex.allLabels(ex.topFrame.spec)
+		ex.oblige(ex.curState, "subset", ex.curKey+"#outside-verified-subset@"+smtSym(msg), labels, "false", nil, "")
+	}
+}
+
+func (ex *Exec) allLabels(sp *FuncSpec) []string {
+	seen := map[string]bool{}
+	var out []string
+	add := func(ls []string) {
+		for _, l := range ls {
+			if !seen[l] {
+				seen[l] = true
+				out = append(out, l)
+			}
+		}
+	}
+	for _, cs := range [][]*Clause{sp.Requires, sp.Ensures, sp.AtCall} {
+		for _, c := range cs {
+			add(c.Labels)
+		}
+	}
+	for _, cs := range sp.LoopInv {
+		for _, c := range cs {
+			add(c.Labels)
+		}
+	}
+	if sp.NoPanic != nil {
+		add(sp.NoPanic.Labels)
+	}
+	return out
 }
 
 func (ex *Exec) use(what string) { ex.used[what] = true }
@@ -173,8 +209,12 @@ func (ex *Exec) typeFacts(st *State, v Val) {
 			st.assume(rangeFact(v.Typ, v.T))
 		} else if isRefLike(v.Typ) {
 			st.assume("(> " + v.T + " " + smtInt(int64(-(ex.nalloc+1))) + ")")
-		} else if _, ok := types.Unalias(v.Typ).Underlying().(*types.Slice); ok {
+		} else if sl, ok := types.Unalias(v.Typ).Underlying().(*types.Slice); ok {
 			st.assume("(and (>= (slen " + v.T + ") 0) (< (slen " + v.T + ") 4611686018427387904))")
+			if isRefLike(sl.Elem()) {
+				// no element can be an object this path allocates later
+				st.assume("(forall ((j Int)) (! (> (sat_i " + v.T + " j) " + smtInt(int64(-(ex.nalloc+1))) + ") :pattern ((sat_i " + v.T + " j))))")
+			}
 		}
 	}
 	if v.S == "String" {
@@ -337,6 +377,9 @@ func (ex *Exec) store(st *State, p Val, v Val) {
 		so = "Int"
 	}
 	st.write(p.Arr, so, p.T, v.T)
+	if strings.HasPrefix(p.Arr, "arr.") {
+		ex.cellVals[p.Arr+"@"+p.T] = v
+	}
 	if isFreshRef(p.T) && !strings.HasPrefix(p.Arr, "@") {
 		if st.cells == nil {
 			st.cells = map[string]Val{}
@@ -724,6 +767,7 @@ func (ex *Exec) block(st *State, fr *Frame, b *ssa.BasicBlock, pred *ssa.BasicBl
 			}
 		}
 		st.note(fmt.Sprintf("enter loop %d", ord))
+		dbgNames(fr, "loop-entry")
 		if fr.loopEntry == nil {
 			fr.loopEntry = map[int]map[string]string{}
 			fr.loopEntryCnt = map[int]map[string]string{}
@@ -734,6 +778,14 @@ func (ex *Exec) block(st *State, fr *Frame, b *ssa.BasicBlock, pred *ssa.BasicBl
 			cc[k2] = v2
 		}
 		fr.loopEntryCnt[ord] = cc
+		if fr.loopEntryNames == nil {
+			fr.loopEntryNames = map[int]map[string]Val{}
+		}
+		nn := make(map[string]Val, len(fr.names))
+		for k2, v2 := range fr.names {
+			nn[k2] = v2
+		}
+		fr.loopEntryNames[ord] = nn
 		for _, c := range invs {
 			g := ex.evalClause(st, fr, c, nil)
 			ex.oblige(st, "invariant-entry", fmt.Sprintf("%s/loop%d.%s.entry", fr.key, ord, c.name()), c.Labels, g, c, ex.posOfBlock(b))
@@ -750,6 +802,17 @@ func (ex *Exec) block(st *State, fr *Frame, b *ssa.BasicBlock, pred *ssa.BasicBl
 				// compiler-generated slice range index: starts at -1, incremented before the bound test
 				st.assume("(and (>= " + nv.T + " (- 1)) (<= " + nv.T + " 4611686018427387903))")
 				nv.Lo, nv.Hi = big.NewInt(-1), lenHi
+				// shape of the compiler-generated loop:  i' = i + 1 ; if i' < n  (n fixed before the loop):
+				// the index never reaches n
+				for _, hin := range b.Instrs {
+					if cmp, ok := hin.(*ssa.BinOp); ok && cmp.Op == token.LSS {
+						if inc, ok := cmp.X.(*ssa.BinOp); ok && inc.Op == token.ADD && inc.X == ssa.Value(ph) {
+							if nval, have := fr.vals[cmp.Y]; have {
+								st.assume("(< " + nv.T + " " + nval.T + ")")
+							}
+						}
+					}
+				}
 			}
 			fr.vals[ph] = nv
 			if ph.Comment != "" {
@@ -820,6 +883,7 @@ func (ex *Exec) checkHeldBalanced(st *State, fr *Frame, b *ssa.BasicBlock) {
 func (ex *Exec) instrs(st *State, fr *Frame, b *ssa.BasicBlock, i int, k Cont) {
 	for ; i < len(b.Instrs); i++ {
 		in := b.Instrs[i]
+		ex.curState = st
 		switch x := in.(type) {
 		case *ssa.If:
 			c := ex.val(st, fr, x.Cond)
@@ -928,7 +992,33 @@ func (ex *Exec) simple(st *State, fr *Frame, in ssa.Instruction) {
 			}
 		} else if obj := x.Object(); obj != nil {
 			if _, isVar := obj.(*types.Var); isVar {
-				fr.names[obj.Name()] = ex.val(st, fr, x.X)
+				bindTo := x.X
+				if _, isConst := x.X.(*ssa.Const); isConst {
+					// x/tools v0.29 records the zero value at some definitions (md := T{}) although the
+					// variable's value is an instruction that already executed; prefer that value when a
+					// later reference to the same variable names it
+					for _, bb := range fr.fn.Blocks {
+						for _, in2 := range bb.Instrs {
+							if d2, ok := in2.(*ssa.DebugRef); ok && !d2.IsAddr && d2.Object() == obj {
+								if _, c2 := d2.X.(*ssa.Const); !c2 {
+									if _, have := fr.vals[d2.X]; have {
+										bindTo = d2.X
+									} else if in3, ok := d2.X.(ssa.Instruction); ok && in3.Block() == x.Block() {
+										// defined later in this very block: resolve when it exists
+										if fr.nameAlias == nil {
+											fr.nameAlias = map[string]ssa.Value{}
+										}
+										fr.nameAlias[obj.Name()] = d2.X
+									}
+								}
+							}
+						}
+					}
+				}
+				fr.names[obj.Name()] = ex.val(st, fr, bindTo)
+				if os.Getenv("GOATVC_DBG") != "" {
+					fmt.Printf("DBG debugref %s := %s (%T %s) in %s block %d pos %s\n", obj.Name(), fr.names[obj.Name()].T, x.X, x.X.Name(), fr.key, x.Block().Index, ex.posOf(x))
+				}
 			}
 		}
 	case *ssa.Alloc:
